@@ -257,7 +257,18 @@ func (c *Ctx) idxSafe(rels ...string) {
 		}
 	}
 	if p, _, ok := c.RepoProgram(false); ok {
+		// functions of the grammar packages that only the actions call, and that the action interpreter inlines,
+		// are judged by list-index (which the properties that cover those packages run as well)
+		small.IdxDeferToActions = func(rel, fn string) bool {
+			label := strings.TrimPrefix(rel, "internal/")
+			if label != "php5" && label != "php7" {
+				return false
+			}
+			f, _ := c.flow(c.Repo, label)
+			return f != nil && f.InlinedIntoActions(fn)
+		}
 		c.Add(small.IdxSafe(p, rels, rev))
+		small.IdxDeferToActions = nil
 	}
 }
 
